@@ -63,6 +63,23 @@ def interesting(key):
     return orphan, fork, bad, dup
 
 
+def directed_class(key):
+    """Named cases of the directed family 'one heavy block (work W) against a chain of light blocks'."""
+    n, par, work, ok, order = json.loads(key)
+    if not work or work[0] < 3:
+        return None
+    w, chain = work[0], list(range(2, n + 1))
+    if len(chain) < w + 1 or 1 not in order or any(b not in order for b in chain):
+        return "no-attempt"
+    last_chain = max(order.index(b) for b in chain)
+    if order.index(1) > last_chain:
+        return "no-attempt"                      # the heavy block arrives when the chain is already complete
+    bad = [b - 1 for b in chain if ok[b - 1] != "ok"]          # heights of the invalid blocks (block k is at height k-1)
+    if not bad:
+        return "overtake_height_gap_ge2"         # the chain overtakes when it is w >= 3 blocks taller than the tip
+    return "attempt_invalid_at_tip_height" if min(bad) <= 1 else "attempt_invalid_above_tip_height"
+
+
 def run_replay(c, groups, keys, jobs, tag):
     """Replay the scenarios `keys` on real nodes (jobs processes) and judge them by the model's outcome sets."""
     wd = V.workdir(PID)
@@ -131,7 +148,7 @@ def judge_random(c, o):
         td[i] = td[b["parent"]] + int(b["difficulty"], 16)
         valid[i] = valid[b["parent"]] and b["ok"] == "ok" and i in received
     best = max(td[i] for i in valid if valid[i])
-    payload = {"kind": "random", "seed": o["seed"], "index": o["random"], "observed": o}
+    payload = {"kind": "random", "seed": o["seed"], "index": o["random"], "directed": bool(o.get("shape")), "observed": o}
     key = None
     tip = o["tip"]
     if not o["quiet"]:
@@ -167,12 +184,26 @@ def judge_random(c, o):
     # coverage facts
     longest = max(len_chain(bl, i) for i in bl)
     tipc = len_chain(bl, tip) if tip else 0
-    return {"blocks": len(bl), "invalid": sum(1 for b in bl.values() if b["ok"] != "ok"),
+    st = {}
+    sh = o.get("shape")
+    if sh:
+        # directed family: heavy side = blocks d+1 .. d+1+e (tip height d+1+e), light chain of l blocks from height d+1
+        top_heavy, lights = sh["heavy"] + sh["e"], list(range(sh["first_light"], sh["first_light"] + sh["l"]))
+        attempt = sh["l"] > sh["w"] + sh["e"] and order.index(top_heavy) < max(order.index(b) for b in lights)
+        if not attempt:
+            st["directed_no_attempt"] = 1
+        elif sh["bad_at"] is None:
+            st["overtake_height_gap_ge2"] = 1
+        else:
+            h, th = sh["d"] + sh["bad_at"], sh["d"] + 1 + sh["e"]
+            st["attempt_invalid_below_tip_height" if h < th else
+               "attempt_invalid_at_tip_height" if h == th else "attempt_invalid_above_tip_height"] = 1
+    return dict(st, **{"blocks": len(bl), "invalid": sum(1 for b in bl.values() if b["ok"] != "ok"),
             "heavier_not_longest": 1 if tipc < longest else 0,
             "orphans_left": sum(1 for b in bl.values() if b["orphan"]),
             "delivered_before_parent": sum(1 for i in received if bl[i]["parent"] != 0 and (
                 bl[i]["parent"] not in received or order.index(bl[i]["parent"]) > order.index(i))),
-            "epochs": len({b["epoch"] for b in bl.values()}), "dups": len(order) - len(received)}
+            "epochs": len({b["epoch"] for b in bl.values()}), "dups": len(order) - len(received)})
 
 
 def len_chain(bl, i):
@@ -183,10 +214,11 @@ def len_chain(bl, i):
     return n
 
 
-def run_random(c, seeds, count):
+def run_random(c, seeds, count, directed=False):
     tot = {}
+    extra = ["--directed"] if directed else []
     with cf.ThreadPoolExecutor(max_workers=len(seeds)) as ex:
-        futs = [ex.submit(V.ckbv, "c01", ["random", "--seed", s, "--count", count], 1500) for s in seeds]
+        futs = [ex.submit(V.ckbv, "c01", ["random", "--seed", s, "--count", count] + extra, 1500) for s in seeds]
         for fu in futs:
             rc, out = fu.result()
             lines = V.parse_ndjson(out)
@@ -197,7 +229,7 @@ def run_random(c, seeds, count):
                 raise V.ToolError("c01 random failed rc=%d %s" % (rc, te[:1]))
             for o in obs:
                 st = judge_random(c, o)
-                c.case({"random": [o["seed"], o["random"]]}, True)
+                c.case({"random": [o["seed"], o["random"], directed]}, True)
                 for k, v in st.items():
                     tot[k] = tot.get(k, 0) + v
                 tot["scenarios"] = tot.get("scenarios", 0) + 1
@@ -252,7 +284,7 @@ def gen_scenarios(rnd, count, nmin, nmax):
 
 def write_trace_cfg(path, nmax):
     with open(path, "w") as f:
-        f.write("SPECIFICATION TSpec\nCONSTANTS\n N = %d\n MaxWork = 2\n MaxDup = 100000\n PreFix = FALSE\n"
+        f.write("SPECIFICATION TSpec\nCONSTANTS\n N = %d\n MaxWork = 2\n MaxDup = 100000\n Heavy = 0\n PreFix = FALSE\n"
                 ' Verdicts = {"ok", "bad_nc", "bad_ctx"}\n' % nmax)
         for inv in TRACE_INVS:
             f.write("INVARIANT %s\n" % inv)
@@ -358,6 +390,7 @@ def run(tier):
     # 1. exhaustive model checking (+ export)
     f3 = pool.submit(model_check, c, "MC_ChainCore_3emit.cfg")
     f2 = pool.submit(model_check, c, "MC_ChainCore_2emit.cfg", 2)
+    fhl = pool.submit(model_check, c, "MC_ChainCore_hl3emit.cfg", 4)
     fself = pool.submit(model_check, c, "MC_ChainCore_prefix.cfg", 2, 600, "NoGhostExt")
     fself2 = pool.submit(model_check, c, "MC_ChainCore_prefix2.cfg", 2, 600, "NoPreloadPanic")
     extra = []
@@ -373,6 +406,11 @@ def run(tier):
     c.set("random_trees", rtot)
     if rtot["heavier_not_longest"] == 0 or rtot["invalid"] == 0 or rtot["delivered_before_parent"] == 0 or rtot["epochs"] < 2 * rtot["scenarios"]:
         raise V.ToolError("vacuous random trees: %s" % rtot)
+    dtot = run_random(c, seeds, 10 if quick else 40, directed=True)
+    c.set("random_heavy_vs_light", dtot)
+    if (dtot.get("overtake_height_gap_ge2", 0) == 0 or dtot.get("attempt_invalid_above_tip_height", 0) == 0
+            or dtot.get("attempt_invalid_below_tip_height", 0) + dtot.get("attempt_invalid_at_tip_height", 0) == 0):
+        raise V.ToolError("vacuous directed random trees: %s" % dtot)
     c.set("regression_9663883", run_ghost(c))
     tr = run_traces(c, rnd, 60 if quick else 400, 3, 8)
     c.set("trace_validation", tr)
@@ -404,7 +442,7 @@ def run(tier):
         rnd.shuffle(rest)
         chosen = hot[:want * 3 // 4] + rest[:want - min(len(hot), want * 3 // 4)]
         n = run_replay(c, groups, chosen, 4, "r")
-        c.add("traces_validated_against_impl", n + rtot["scenarios"] + tr["scenarios"])
+        c.add("traces_validated_against_impl", n + rtot["scenarios"] + dtot["scenarios"] + tr["scenarios"])
         c.set("scenarios_exported", len(keys))
         c.set("scenarios_with_several_allowed_outcomes", sum(1 for k in keys if len(groups[k]) > 1))
         st = [interesting(k) for k in chosen]
@@ -415,6 +453,26 @@ def run(tier):
             raise V.ToolError("vacuous replay set: %s" % cov)
         for k in chosen[:3]:
             c.sample({"scenario": json.loads(k), "allowed": groups[k]})
+    # directed family: one heavy block against a light chain that overtakes only when it is >= 3 blocks taller
+    res = fhl.result()
+    if not res["violated"]:
+        dg = outcome_sets(res["out"])
+        cls = {}
+        for k in dg:
+            cls.setdefault(directed_class(k), []).append(k)
+        names = ["overtake_height_gap_ge2", "attempt_invalid_at_tip_height", "attempt_invalid_above_tip_height"]
+        if any(not cls.get(nm) for nm in names):
+            raise V.ToolError("vacuous directed family: %s" % {k: len(v) for k, v in cls.items()})
+        picked = []
+        per = 150 if quick else 600
+        for nm in names + ["no-attempt"]:
+            ks = sorted(cls.get(nm, []))
+            rnd.shuffle(ks)
+            picked += ks[:per]
+        nd = run_replay(c, dg, picked, 4, "hl")
+        c.add("traces_validated_against_impl", nd)
+        c.set("directed_heavy_vs_light", dict({nm: min(per, len(cls.get(nm, []))) for nm in names + ["no-attempt"]},
+                                               exported=len(dg), replayed=nd))
     c.set("exhaustive", True)
     return c.finish()
 
@@ -427,7 +485,7 @@ def replay(path, tier):
         k = json.dumps(p["scenario"])
         run_replay(c, {k: p["allowed"]}, [k], 1, "replay")
     elif p["kind"] == "random":
-        rc, out = V.ckbv("c01", ["random", "--seed", p["seed"], "--count", p["index"] + 1], 900)
+        rc, out = V.ckbv("c01", ["random", "--seed", p["seed"], "--count", p["index"] + 1] + (["--directed"] if p.get("directed") else []), 900)
         for o in [x for x in V.parse_ndjson(out) if x.get("random") == p["index"]]:
             judge_random(c, o)
     elif p["kind"] == "ghost":
